@@ -549,11 +549,16 @@ def m1(cx):
                 cx.bad(ms[which], construct=f"{c.name} defines only {which}", detail="state produced by one protocol half is not restored by the other", sub="protocol")
             elif "__getstate__" in ms:
                 cx.ok(ms["__getstate__"], construct=f"{c.name}: __getstate__/__setstate__ pair", detail="both halves defined", sub="protocol")
+
+
+@rule("M1h", ["C06", "C20", "C18"], "hybrid materialisers (__setstate__, move, xoinitialize) re-dress from the struct view")
+def m1h(cx):
+    m = cx.m
     # ---- HybridClass materialisers re-dress from the xobject
     for name in ("__setstate__", "move"):
         fn = m.func(f"hybrid_class::HybridClass.{name}")
         got = _must_assigned(fn, "self")
-        cx.check("_xobject" in got and "*_reinit_from_xobject" in got, fn, construct=f"HybridClass.{name}: sets _xobject and re-dresses nested fields",
+        cx.check("*_reinit_from_xobject" in got, fn, construct=f"HybridClass.{name}: re-dresses from the (new) struct view on every path (_reinit_from_xobject sets _xobject)",
                  detail="hybrid handle rebuilt from the buffer view", bad_detail=f"HybridClass.{name} does not (on every path) set _xobject and call _reinit_from_xobject", sub="hybrid")
     xi = m.func("hybrid_class::HybridClass.xoinitialize")
     got = _must_assigned(xi, "self")
@@ -564,10 +569,17 @@ def m1(cx):
     cx.check("_xobject" in got, rx, construct="_reinit_from_xobject sets self._xobject", detail="the handle views the given xobject", bad_detail="_reinit_from_xobject does not set _xobject", sub="hybrid")
     sg = m.func("hybrid_class::HybridClass.__setstate__")
     calls = [c for c in own_nodes(sg) if isinstance(c, ast.Call) and call_name(c) == "_from_buffer"]
-    ok = len(calls) == 1 and norm(calls[0].func.value) == "self._XoStruct"
+    calls = list({norm(c): c for c in calls}.values())  # an inlined temporary repeats the call text
+    cx.recog(len(calls) == 1, sg, "HybridClass.__setstate__: rebuild of the struct view through _from_buffer")
+    ok = norm(calls[0].func.value) == "self._XoStruct"
     if ok:
         b, o = get_arg(calls[0], 0, "buffer"), get_arg(calls[0], 1, "offset")
-        ok = b is not None and o is not None and norm(b) == "state[0]" and norm(o) == "state[1]"
+        dsg = Defs(sg)
+
+        def r1(e):
+            return dsg.single(e.id) if isinstance(e, ast.Name) and dsg.single(e.id) is not None else e
+
+        ok = b is not None and o is not None and norm(r1(b)) == "state[0]" and norm(r1(o)) == "state[1]"
     cx.check(ok, sg, construct="HybridClass.__setstate__: _XoStruct._from_buffer(state[0], state[1])", detail="view rebuilt from the pickled (buffer, offset)", bad_detail="state is not rebuilt through the struct's view materialiser with (buffer, offset)", sub="hybrid")
 
 
